@@ -489,6 +489,7 @@ AddMod == /\ ph = 1 /\ Len(p.mods) < MaxMods
           /\ IF IsArr(p)
              THEN \E s \in Shapes(p.dims) : \E rd \in Redecl(s, p.dims) :
                      /\ Len(p.dims) >= 2 => Len(p.mods) = 0       \* rank >= 2: one modification
+                     /\ \A i \in 1..Len(p.mods) : p.mods[i].dm = <<>>   \* only the last line of a chain is typed
                      /\ p' = [p EXCEPT !.mods = Append(@, ArrL(s, rd))]
              ELSE \E m \in ModTab[<<p.ty, p.nu>>] :
                      /\ Len(p.mods) >= 1 => ~IsFine(p, m)
@@ -497,7 +498,7 @@ AddMod == /\ ph = 1 /\ Len(p.mods) < MaxMods
 
 Coarse(q) == \A l \in Range(Assigned(q)) : ~IsFine(q, l)
 \* the node reaches the environment through an import (coarse values; arrays too)
-SetVia == /\ ph = 1 /\ (IF IsArr(p) THEN TRUE ELSE Coarse(p)) /\ (IF Len(p.dims) <= 1 THEN TRUE ELSE Rich)
+SetVia == /\ ph = 1 /\ (IF IsArr(p) THEN TRUE ELSE Coarse(p)) /\ (IF Len(p.dims) <= 1 THEN TRUE ELSE Rich /\ \A i \in 1..Len(p.mods) : p.mods[i].dm = <<>>)
           /\ \E v \in {"local", "source"} : p' = [p EXCEPT !.via = v]
           /\ ph' = 2 /\ lv' = lv
 SetBy == /\ ph = 1 /\ ~IsArr(p) /\ p.mods # <<>> /\ Coarse(p)
